@@ -362,10 +362,9 @@ func (f *Func) reachTarget(
 			}
 		}
 
-		// If we're skipping because we have this value already, then
-		// note that we're using this input in the input set.
+		// If we're skipping then we have this value already. The input it
+		// came from was recorded in the input set when it was first reached.
 		if skip {
-			state.InputSet[graph.VertexID(out)] = out
 			continue
 		}
 
